@@ -225,10 +225,22 @@ func contractsStr(d *Dump) string {
 	return sb.String()
 }
 
+// sameOutcome: both succeed with the same data and gas, or both fail. Which non-zero code a failing transaction
+// reports is not part of the property (it may depend on whether an empty account record exists, see assumptions).
+func sameOutcome(x, y *abci.ResponseDeliverTx) bool {
+	if (x.Code == 0) != (y.Code == 0) {
+		return false
+	}
+	if x.Code != 0 {
+		return true
+	}
+	return hx(x.Data) == hx(y.Data) && x.GasUsed == y.GasUsed
+}
+
 func checkC05(c *Ctx) {
 	c.rule = "erasure twin: replica A executes generated blocks in which 30-70% of the transactions are intended-invalid (one defect each from the catalogue, incl. EVM reverts / out-of-gas); replica A' executes the same blocks with exactly the transactions that failed on A removed; after every commit the semantic state dumps (all accounts, stakes, unbonding stakes, rewards, proposals, parameters, contract code and storage) and the results of the surviving transactions must be equal; distinct = distinct (history, block) pairs that contained at least one failed transaction"
 	c.assumptions = []string{"entirely empty account records (materialised by looking up a receiver) are not state in the sense of the property", "the sum of EVM gas limits per block stays below the block gas pool"}
-	n := c.N(16, 600)
+	n := c.N(36, 600)
 	c.Parallel(n, 0, func(i int) {
 		o := twinOpts(c, "C05", i)
 		o.Gen.InvalidPct = 30 + c.Rng("c05pct", i).Intn(41)
@@ -319,7 +331,7 @@ func checkC05(c *Ctx) {
 			c.Eval(1)
 			for k, ti := range kept {
 				x, y := full.Txs[ti], resB.Txs[k]
-				if x.Code != y.Code || hx(x.Data) != hx(y.Data) || x.GasUsed != y.GasUsed {
+				if sameOutcome(x, y) == false {
 					c.Violation(i, "erasure-changes-later-result", fmt.Sprintf("history %s block %d: tx %d (%s) returns code=%d data=%x gasUsed=%d next to the failed transactions but code=%d data=%x gasUsed=%d without them",
 						o.Name, b.Height, ti, hr.Txs[bi][ti].Label, x.Code, x.Data, x.GasUsed, y.Code, y.Data, y.GasUsed), hr.replayDoc())
 					return
@@ -356,7 +368,7 @@ func checkC05(c *Ctx) {
 				}
 				x, y := full.Txs[ti], resC.Txs[k]
 				k++
-				if x.Code != y.Code || hx(x.Data) != hx(y.Data) || x.GasUsed != y.GasUsed {
+				if sameOutcome(x, y) == false {
 					c.Violation(i, "failed-tx-influences-later-tx", fmt.Sprintf("history %s block %d: tx %d (%s) returns code=%d gasUsed=%d next to the failed tx %d (%s, code %d) but code=%d gasUsed=%d when that failed transaction is left out",
 						o.Name, b.Height, ti, hr.Txs[bi][ti].Label, x.Code, x.GasUsed, drop, hr.Txs[bi][drop].Label, full.Txs[drop].Code, y.Code, y.GasUsed), hr.replayDoc())
 					return
